@@ -1,0 +1,47 @@
+//! Verification hooks (only compiled with `--cfg mahf_verif`).
+//!
+//! Provides an optional step observer that is notified before and after each child of a
+//! sequential [`Block`] is executed. Without an observer in the state this is a no-op.
+//!
+//! [`Block`]: crate::components::Block
+
+use better_any::{Tid, TidAble};
+
+use crate::{Component, CustomState, Problem, State};
+
+/// Whether the event is emitted before or after the child component is executed.
+#[derive(Clone, Copy, Debug, PartialEq, Eq)]
+pub enum Step {
+    Before,
+    After,
+}
+
+/// Describes which child of which block is being executed.
+pub struct StepEvent<'c, P: Problem> {
+    pub step: Step,
+    /// Index of the child within its block.
+    pub index: usize,
+    /// Number of children of the block.
+    pub len: usize,
+    /// Address of the block, to distinguish blocks within a run.
+    pub block: usize,
+    /// The child component.
+    pub component: &'c dyn Component<P>,
+}
+
+/// The callback type of a [`StepObserver`].
+pub type StepCallback<P> =
+    dyn for<'s, 'a, 'c> FnMut(&P, &'s State<'a, P>, StepEvent<'c, P>) + Send;
+
+/// An observer stored in the state like any other custom state.
+#[derive(Tid)]
+pub struct StepObserver<P: Problem + 'static>(pub Box<StepCallback<P>>);
+
+impl<P: Problem> CustomState<'_> for StepObserver<P> {}
+
+/// Calls the observer if one is present anywhere in the scope chain.
+pub fn emit<P: Problem>(problem: &P, state: &State<'_, P>, event: StepEvent<'_, P>) {
+    if let Ok(mut observer) = state.try_borrow_mut::<StepObserver<P>>() {
+        (observer.0)(problem, state, event);
+    }
+}
